@@ -101,9 +101,12 @@ func HarnessC06Bind() {
 	// and whose is it?
 	hasRef := zz.Bool("claim.hasResourceRef")
 	xrState := zz.Choose("xr.state", 4) // absent, unbound, ours, another claim's
+	// another claim differs from ours in its name or in its namespace
 	otherName := zz.Str("other.claim.name")
-	zz.Assume(otherName != "cm")
+	otherNS := zz.Str("other.claim.namespace")
+	zz.Assume(zz.Or(otherName != "cm", otherNS != "team"))
 	zz.Assume(otherName != "")
+	zz.Assume(otherNS != "")
 	if hasRef {
 		cm.SetResourceReference(composite.New(composite.WithGroupVersionKind(zzXRGVK)).GetReference())
 		cm.Object["spec"].(map[string]any)["resourceRef"] = map[string]any{"apiVersion": "example.org/v1", "kind": "XR", "name": "xr-pre"}
@@ -125,7 +128,7 @@ func HarnessC06Bind() {
 		case 2:
 			spec["claimRef"] = map[string]any{"apiVersion": "example.org/v1", "kind": "Claim", "name": "cm", "namespace": "team"}
 		case 3:
-			spec["claimRef"] = map[string]any{"apiVersion": "example.org/v1", "kind": "Claim", "name": otherName, "namespace": "team"}
+			spec["claimRef"] = map[string]any{"apiVersion": "example.org/v1", "kind": "Claim", "name": otherName, "namespace": otherNS}
 			zz.Cover("other-claims-xr")
 		}
 		xr.Object["spec"] = spec
